@@ -150,6 +150,24 @@ def trace_validate_random(rng, n_events, rep):
                     limits = {"depth": 64, "max_seq": 10000, "max_alloc": 1 << 20}
                     cmds.append({"op": "de", "id": len(cmds), "schema": {"nodes": nodes}, "bytes": b, "reader": rd, "limits": limits, "decimal_mode": dm})
                     metas.append((len(scope), b, limits, "dec_" + dm))
+    # `duration` annotating a fixed that is NOT 12 bytes long is not a duration: the fixed keeps its own size (what follows it is read from the
+    # right place)
+    for fsz in (16, 11, 13):
+        t = scopes.rec("ns.HD", [("d", F(f"ns.Dur{fsz}", fsz, lt="duration")), ("after", scopes.prim("long")), ("s", scopes.prim("string"))])
+        nodes = scopes.flatten(t)["nodes"]
+        scope.append({"sid": f"dur{fsz}", "nodes": nodes})
+        v = {"t": "rec", "es": [{"t": "fix", "v": list(range(1, fsz + 1))}, {"t": "long", "v": pyavro.limbs(-77)}, {"t": "str", "v": [111, 107]}]}
+        b = pyavro.encode(nodes, 1, v)
+        for rd in ({"kind": "slice"}, {"kind": "chunks", "sched": [3]}):
+            for hints in ("default", "alt", "any"):
+                limits = {"depth": 64, "max_seq": 10000, "max_alloc": 1 << 20}
+                c = {"op": "de", "id": len(cmds), "schema": {"nodes": nodes}, "bytes": b, "reader": rd, "limits": limits}
+                if hints != "default":
+                    c["hints"] = hints
+                    if hints == "alt":
+                        c["shape"] = v
+                cmds.append(c)
+                metas.append((len(scope), b, limits, hints))
     # the same decimals in a union of null and two other branches, read as Option<integer> (the expected branch is given to the target)
     mscope = [scopes.un(scopes.prim("null"), P("bytes", lt="decimal", prec=29, scale=0), scopes.prim("string")),
               scopes.un(scopes.prim("long"), F("D16m", 16, lt="decimal", prec=29, scale=0), scopes.prim("null")),
